@@ -587,7 +587,7 @@ int runCheck(const Opts &o, Check<Inst> &c) {
         --live;
         continue;
       }
-      if (crashes > 400) {
+      if (crashes > 48) {
         R.exhaustive = false;
         R.harnessError = R.harnessError.empty() ? "" : R.harnessError;
         pids[k] = -1;
@@ -632,7 +632,7 @@ int runCheck(const Opts &o, Check<Inst> &c) {
   }
   for (auto &v : crashViol) { R.violations.push_back(v); cc[v.cls]++; }
   R.classCounts = cc;
-  if (crashes > 400) R.exhaustive = false;
+  if (crashes > 48) R.exhaustive = false;
   R.counters["worker_crashes_or_hangs"] = crashes;
   // distinct non-trivial
   {
